@@ -76,4 +76,12 @@ theorem C05_compaction_writes_recoverable_events (log : List Event) (hl : Codec.
 theorem C05_time_stamps_survive (t : Time) (h : t < Time.maxT) : Time.parse (Time.format t) = some t :=
   Time.parse_format t h
 
+/-- for *every* task — also one that carries a claimant in a state that clears claims (a `claim` whose write was cut before its state line,
+    a hand-merged log; outside `ReachOK`) — replaying the block compaction writes for it gives back its state and its claimant: the state
+    event comes before the claim event (`fix: compact writes a task's state before its claim`, DESIGN §6; in the other order the claimant was
+    lost, which this check found on the torn-claim histories) -/
+theorem C05_state_and_claimant_survive_for_every_task (t : Task) :
+    (rebuild t).st = t.st ∧ (rebuild t).claimedBy = t.claimedBy := by
+  rw [rebuild_eq]; exact ⟨rfl, rfl⟩
+
 end Ergo
